@@ -1061,6 +1061,95 @@ Proof.
       split; [congruence | exact Hall'].
 Qed.
 
+(* Shutdown can always return drained (repaired code): from every reachable state in which Shutdown is in progress,
+   some continuation — the pipeline finishing what was read, then one poller tick closing every connection — reaches
+   the drained return. (With the pool released early this is false: progress_refuted_with_early_release.) *)
+Lemma busy_unanswered : forall W cap early s, reachable W cap early s ->
+  forall c r, In r (busy s c) -> unanswered (rs s c r) = true.
+Proof.
+  intros W cap early. apply (reachable_ind' W cap early (fun s => forall c r, In r (busy s c) -> unanswered (rs s c r) = true)).
+  - cbn. intros. contradiction.
+  - intros s l s' Hr IH H c0 r0 Hin. destruct (reachable_Safe W cap early s Hr) as [J1 J2 J2' J3 J4 J5 J6 J7].
+    open_step H; split_guards; upd_cases; auto; try (cbn [In] in Hin);
+      try (match goal with |- unanswered ?x = true => reflexivity end).
+    all: try (destruct Hin as [Hin | Hin]; [congruence | auto]; fail).
+    all: try (apply in_remove_nat in Hin; destruct Hin as [Hin Hne]; try contradiction; auto; fail).
+    all: try (specialize (IH _ _ Hin); match goal with Hx : rs _ ?c ?r = _ |- _ => rewrite Hx in IH; discriminate IH end).
+Qed.
+
+Definition conn_done (s : state) (c : cid) : Prop := inmap s c = false \/ cst s c = CClosed.
+
+Lemma close_all_in_tick : forall W cap early (l : list cid) s, reachable W cap early s ->
+  ph s = SDown -> inpoll s = true -> (forall c, busy s c = []) ->
+  exists ls s', run W cap early s ls = Some s' /\ reachable W cap early s' /\
+    ph s' = SDown /\ inpoll s' = true /\ known s' = known s /\ (forall c, busy s' c = []) /\
+    (forall c, In c l -> conn_done s' c) /\ (forall c, conn_done s c -> conn_done s' c).
+Proof.
+  intros W cap early. induction l as [|c l IH]; intros s Hr Hp Hi Hb.
+  - exists [], s. cbn. repeat split; auto. intros c Hc. contradiction.
+  - destruct (IH s Hr Hp Hi Hb) as [ls [s1 [Hrun [Hr1 [Hp1 [Hi1 [Hk1 [Hb1 [Hl1 Hkeep1]]]]]]]]].
+    destruct (inmap s1 c) eqn:Hm.
+    2:{ exists ls, s1. repeat split; auto. intros c0 [Hc0 | Hc0]; [subst; left; auto | auto]. }
+    destruct (cstate_eqb (cst s1 c) CClosed) eqn:Hc.
+    { apply cstate_eqb_eq in Hc. exists ls, s1. repeat split; auto. intros c0 [Hc0 | Hc0]; [subst; right; auto | auto]. }
+    destruct (reachable_Safe W cap early s1 Hr1) as [J1 J2 J2' J3 J4 J5 J6 J7].
+    assert (Hopen : cst s1 c = COpen \/ cst s1 c = CExited).
+    { destruct (cst s1 c) eqn:E; auto.
+      - rewrite (J2' c E) in Hm. discriminate.
+      - cbn in Hc. discriminate. }
+    assert (Hstep : exists s2, step W cap early s1 (LPollClose c) = Some s2 /\
+              s2 = set_conn s1 c CClosed true (notified s1 c) (polled s1 c)).
+    { unfold step. rewrite Hp1. cbn [alive negb poller_live]. rewrite Hi1, Hm. cbn [andb].
+      rewrite (Hb1 c). destruct Hopen as [E | E]; rewrite E; eexists; split; reflexivity. }
+    destruct Hstep as [s2 [Hs2 Hdef]].
+    exists (ls ++ [LPollClose c]), s2. split.
+    { rewrite run_app, Hrun. cbn. rewrite Hs2. reflexivity. }
+    split; [eapply reachable_step; eauto|].
+    subst s2. unfold set_conn, conn_done in *. cbn [ph inpoll known busy inmap cst].
+    repeat split; auto.
+    + intros c0 [Hc0 | Hc0].
+      * subst c0. right. apply upd_eq.
+      * destruct (Nat.eq_dec c0 c) as [E | E]; [subst; right; apply upd_eq|].
+        rewrite !(upd_neq _ _ c _ c0 E). auto.
+    + intros c0 Hd. destruct (Nat.eq_dec c0 c) as [E | E]; [subst; right; apply upd_eq|].
+      rewrite !(upd_neq _ _ c _ c0 E). auto.
+Qed.
+
+Theorem can_always_return_drained : forall W cap, (0 < cap)%N -> forall ls s, run W cap false init ls = Some s ->
+  ph s = SDown -> exists ls' s', run W cap false s ls' = Some s' /\ ph s' = SRetDrained.
+Proof.
+  intros W cap Hcap ls s Hrun Hp.
+  assert (Halive : alive (ph s) = true) by (rewrite Hp; reflexivity).
+  destruct (can_always_drain W cap Hcap ls s Hrun Halive) as [l1 [s1 [_ [Hr1 [Hp1 Hall1]]]]].
+  assert (Hreach1 : reachable W cap false s1).
+  { exists (ls ++ l1). rewrite run_app, Hrun. exact Hr1. }
+  assert (Hb1 : forall c, busy s1 c = []).
+  { intros c. destruct (busy s1 c) as [|r rest] eqn:E; auto.
+    pose proof (busy_unanswered W cap false s1 Hreach1 c r) as Hu. rewrite E in Hu. specialize (Hu (or_introl eq_refl)).
+    rewrite Hall1 in Hu. discriminate. }
+  rewrite Hp in Hp1.
+  (* get a tick going *)
+  assert (Htick : exists l2 s2, run W cap false s1 l2 = Some s2 /\ reachable W cap false s2 /\ ph s2 = SDown /\
+                    inpoll s2 = true /\ known s2 = known s1 /\ (forall c, busy s2 c = [])).
+  { destruct (inpoll s1) eqn:Hi.
+    - exists [], s1. cbn. repeat split; auto.
+    - destruct (step W cap false s1 LPollBegin) as [s2|] eqn:E.
+      + exists [LPollBegin], s2. cbn. rewrite E. split; auto. split; [eapply reachable_step; eauto|].
+        unfold step in E. rewrite Hp1, Hi in E. cbn in E. inversion E. subst s2. cbn. repeat split; auto.
+      + exfalso. unfold step in E. rewrite Hp1, Hi in E. cbn in E. discriminate. }
+  destruct Htick as [l2 [s2 [Hr2 [Hreach2 [Hp2 [Hi2 [Hk2 Hb2]]]]]]].
+  destruct (close_all_in_tick W cap false (known s2) s2 Hreach2 Hp2 Hi2 Hb2)
+    as [l3 [s3 [Hr3 [Hreach3 [Hp3 [Hi3 [Hk3 [Hb3 [Hdone _]]]]]]]]].
+  assert (Hac : all_closed s3 = true).
+  { unfold all_closed. apply forallb_forall. intros c Hc. rewrite Hk3 in Hc. destruct (Hdone c Hc) as [Hd | Hd].
+    - rewrite Hd. reflexivity.
+    - rewrite Hd. apply orb_true_r. }
+  destruct (drained_return_enabled W cap false s3) as [s4 [Hr4 Hp4]]; [rewrite Hp3; reflexivity | exact Hac |].
+  rewrite Hi3 in Hr4.
+  exists (l1 ++ l2 ++ l3 ++ [LPollReturn]), s4. split; auto.
+  rewrite run_app, Hr1, run_app, Hr2, run_app, Hr3. exact Hr4.
+Qed.
+
 (* ---------------------------------------------------------------------------------------------------------- *)
 (* The statements of Props/C12.v, with the run spelled out. *)
 
